@@ -26,6 +26,7 @@ Proof.
   intros Hj. pose proof (P2_add t j) as H. rewrite (P2_nonneg j), (P2_nonpos (- j)) in H by lia. lia.
 Qed.
 
+(** moving 2^j between the integer and the exponent (>=) *)
 Lemma ge2_shift (Hnum : 0 < num) (Hden : 0 < den) I t j : 0 <= j -> ge2 (I * 2 ^ j) t <-> ge2 I (t + j).
 Proof.
   intros Hj. unfold ge2. pose proof (P2_shift t j Hj) as E.
@@ -38,6 +39,7 @@ Proof.
   - assert (X : I * (b * a') * den <= num * b' * a') by nia. rewrite E in X. nia.
 Qed.
 
+(** moving 2^j between the integer and the exponent (<=) *)
 Lemma le2_shift (Hnum : 0 < num) (Hden : 0 < den) I t j : 0 <= j -> le2 (I * 2 ^ j) t <-> le2 I (t + j).
 Proof.
   intros Hj. unfold le2. pose proof (P2_shift t j Hj) as E.
@@ -49,6 +51,7 @@ Proof.
   - assert (X : num * b' * a' <= I * (b * a') * den) by nia. rewrite E in X. nia.
 Qed.
 
+(** moving 2^j between the integer and the exponent (<) *)
 Lemma lt2_shift (Hnum : 0 < num) (Hden : 0 < den) I t j : 0 <= j -> lt2 (I * 2 ^ j) t <-> lt2 I (t + j).
 Proof.
   intros Hj. unfold lt2. pose proof (P2_shift t j Hj) as E.
@@ -68,11 +71,13 @@ Proof.
     apply Z.mul_lt_mono_pos_r; lia.
 Qed.
 
+(** a smaller integer is still a lower bound *)
 Lemma ge2_mono (Hnum : 0 < num) (Hden : 0 < den) I I' t : I' <= I -> ge2 I t -> ge2 I' t.
 Proof.
   unfold ge2. intros HI H. pose proof (P2_pos t). assert (0 < P2 t * den) by nia.
   rewrite <- !Z.mul_assoc in *. nia.
 Qed.
+(** a larger integer is still a strict upper bound *)
 Lemma lt2_mono (Hnum : 0 < num) (Hden : 0 < den) I I' t : I <= I' -> lt2 I t -> lt2 I' t.
 Proof.
   unfold lt2. intros HI H. pose proof (P2_pos t). assert (0 < P2 t * den) by nia.
@@ -86,6 +91,7 @@ Proof.
   rewrite <- !Z.mul_assoc in *. nia.
 Qed.
 
+(** a bracket [2^e, 2 * 2^e) gives the binary order of magnitude *)
 Lemma ilog2_of_bracket (Hnum : 0 < num) (Hden : 0 < den) e : ge2 1 e -> lt2 2 e -> is_ilog2 num den e.
 Proof. unfold ge2, lt2, is_ilog2. lia. Qed.
 
@@ -207,8 +213,10 @@ Qed.
 
 Lemma u64_idem_add a b : u64 (u64 a + b) = u64 (a + b).
 Proof. rewrite !u64_mod. apply Zplus_mod_idemp_l. Qed.
+(** uint64 truncation commutes with subtraction *)
 Lemma u64_idem_sub a b : u64 (u64 a - b) = u64 (a - b).
 Proof. rewrite !u64_mod. apply Zminus_mod_idemp_l. Qed.
+(** 2^64 is positive *)
 Lemma two64_pos : 0 < two64. Proof. reflexivity. Qed.
 
 (** normalisation: man << clz has its top bit set *)
